@@ -48,11 +48,36 @@ C04_Single ==
        IN ShapeAsComponents(ls, vals, ys)
 
 \* the isos of a pair (same leaf type on both sides), at most MaxIsos of them, as a sequence
-IsoSeq(ls, lt) == LET all == {<<i, j>> \in (1..Len(ls)) \X (1..Len(lt)) : ls[i].ty = lt[j].ty}
-                      few == {x \in all : Cardinality({y \in all : y[1] * 100 + y[2] < x[1] * 100 + x[2]}) < MaxIsos}
-                      sq == SetToSeq(few)
-                  IN [n \in 1..Len(sq) |-> [kind |-> "iso", s |-> Prim(<<ls[sq[n][1]].cell, ls[sq[n][1]].cell>>),
-                                              t |-> Prim(<<lt[sq[n][2]].cell, lt[sq[n][2]].cell>>), si |-> sq[n][1], ti |-> sq[n][2]]]
+PlainIsos(ls, lt) == LET all == {<<i, j>> \in (1..Len(ls)) \X (1..Len(lt)) : ls[i].ty = lt[j].ty}
+                         few == {x \in all : Cardinality({y \in all : y[1] * 100 + y[2] < x[1] * 100 + x[2]}) < MaxIsos}
+                         sq == SetToSeq(few)
+                     IN [n \in 1..Len(sq) |-> [kind |-> "iso", s |-> Prim(<<ls[sq[n][1]].cell, ls[sq[n][1]].cell>>),
+                                                 t |-> Prim(<<lt[sq[n][2]].cell, lt[sq[n][2]].cell>>), si |-> sq[n][1], ti |-> sq[n][2],
+                                                 sw |-> PlainW, tw |-> PlainW, x |-> FALSE, seqix |-> <<>>]]
+Castable(t) == t \in {"int8", "int16", "int32", "int64", "string", "[]byte", "float64"}
+\* ... followed by isos over wrapped lenses on the first pair of three-valued fields, and by Morphisms used as entries:
+\*   BiMap/BiMap with the same and with different conversions, Getter -> Setter, BiMapX/BiMapX (x = TRUE),
+\*   Morphism(wrapped, nil, wrapped), Morphism(plain) and Morphism(Getter->Setter iso, another plain iso)
+IsoSeq(ls, lt) ==
+  LET plain == PlainIsos(ls, lt)
+      c3 == {n \in 1..Len(plain) : ls[plain[n].si].nv = 3 /\ lt[plain[n].ti].nv = 3}
+      b == IF c3 = {} THEN 0 ELSE CHOOSE n \in c3 : \A m \in c3 : n <= m
+      W(k, cv) == [kind |-> k, conv |-> cv, nv |-> 3]
+      V(sk, scv, tk, tcv, x) == [plain[b] EXCEPT !.sw = W(sk, scv), !.tw = W(tk, tcv), !.x = x]
+      wrapped == IF b = 0 THEN <<>>
+                 ELSE << V("bimap", "rot", "bimap", "rot", FALSE), V("bimap", "rot", "bimap", "cast", FALSE), V("getter", "rot", "setter", "cast", FALSE) >>
+                      \o (IF Castable(ls[plain[b].si].ty) THEN << V("bimap", "cast", "bimap", "cast", TRUE) >> ELSE <<>>)
+      base == plain \o wrapped
+      other == IF Len(plain) = 0 THEN 0 ELSE IF b # 1 THEN 1 ELSE IF Len(plain) >= 2 /\ plain[2].ti # plain[1].ti THEN 2 ELSE 0
+      N(q) == [kind |-> "morph", seq |-> [i \in 1..Len(q) |-> IF q[i] = 0 THEN Nil ELSE base[q[i]]], seqix |-> q,
+               s |-> Prim(<<1, 1>>), t |-> Prim(<<1, 1>>), si |-> 0, ti |-> 0, sw |-> PlainW, tw |-> PlainW, x |-> FALSE]
+      w1 == Len(plain) + 1
+      nested == (IF Len(plain) = 0 THEN <<>> ELSE << N(<<1>>) >>)
+                \o (IF b = 0 THEN <<>> ELSE << N(<<w1, 0, w1>>) >> \o (IF other = 0 THEN <<>> ELSE << N(<<w1 + 2, other>>) >>))
+  IN base \o nested
+NPlain(isos) == Cardinality({n \in 1..Len(isos) : isos[n].kind = "iso" /\ isos[n].sw.kind = "lens" /\ isos[n].tw.kind = "lens"})
+\* the target cells an entry writes
+Targets(e) == LET lv == Leaves(<<e>>) IN {AbsFocus(lv[i].t)[1] : i \in 1..Len(lv)}
 MapKeys == {"k1", "k2", "k3"}
 \* ... against a map[string]A, A = the type of the first leaf lens of S: fields of that type paired with two keys
 IsoSeqM(ls) == LET all == {<<i, k>> \in (1..Len(ls)) \X {1, 2} : ls[i].ty = ls[1].ty}
@@ -60,9 +85,18 @@ IsoSeqM(ls) == LET all == {<<i, k>> \in (1..Len(ls)) \X {1, 2} : ls[i].ty = ls[1
                    sq == SetToSeq(few)
                IN [n \in 1..Len(sq) |-> [kind |-> "isoM", s |-> Prim(<<ls[sq[n][1]].cell, ls[sq[n][1]].cell>>),
                                            key |-> IF sq[n][2] = 1 THEN "k1" ELSE "k2", si |-> sq[n][1], ti |-> sq[n][2]]]
-\* lists (of indices into an iso sequence, 0 = nil) of length <= 3 whose different isos have different targets
-Lists(isos) == LET ok(q) == \A a \in 1..Len(q), b \in 1..Len(q) : (q[a] # 0 /\ q[b] # 0 /\ q[a] # q[b]) => isos[q[a]].ti # isos[q[b]].ti
-               IN {q \in (UNION {[1..n -> 0..Len(isos)] : n \in 1..3}) : ok(q)}
+\* lists (of indices into an iso sequence, 0 = nil) whose different entries write different targets: every list of
+\* length <= 3 over the plain isos and nil; every list of length <= 2 over all entries; and x, nil, x / x, plain, x
+ListsOver(isos, n, len) == LET ok(q) == \A a \in 1..Len(q), b \in 1..Len(q) :
+                                          (q[a] # 0 /\ q[b] # 0 /\ q[a] # q[b]) => Targets(isos[q[a]]) \cap Targets(isos[q[b]]) = {}
+                           IN {q \in (UNION {[1..m -> 0..n] : m \in 1..len}) : ok(q)}
+Lists(isos) == IF Len(isos) > 0 /\ isos[1].kind = "isoM"
+               THEN LET ok(q) == \A a \in 1..Len(q), b \in 1..Len(q) : (q[a] # 0 /\ q[b] # 0 /\ q[a] # q[b]) => isos[q[a]].ti # isos[q[b]].ti
+                    IN {q \in (UNION {[1..n -> 0..Len(isos)] : n \in 1..3}) : ok(q)}
+               ELSE LET np == NPlain(isos)  ext == (np + 1)..Len(isos) IN
+                    ListsOver(isos, np, 3) \cup ListsOver(isos, Len(isos), 2)
+                    \cup {<<a, 0, a>> : a \in ext}
+                    \cup {q \in {<<a, p, a>> : a \in ext, p \in 1..np} : Targets(isos[q[1]]) \cap Targets(isos[q[2]]) = {}}
 Entries(isos, q) == [i \in 1..Len(q) |-> IF q[i] = 0 THEN Nil ELSE isos[q[i]]]
 EmptyMap == [k \in MapKeys |-> -1]
 FullMap == [k \in MapKeys |-> IF k = "k3" THEN 2 ELSE 1]
